@@ -10,8 +10,9 @@ directory maps or `Route` are implemented.
 * `Named`, `Known`, `UniqueName`, `NoSentinelNames` (the explicit guard: no
   instance is literally called `no_service`, `bad_route_param`, `miss_route_func`).
 * `RuleNames R t p n` : the route rule for type `t` names instance `n` for parameter
-  `p` (explicit name | registered constant | registered key function on a
-  session / key map carrying a string under that key).
+  `p` (explicit name | registered constant | registered key function — plain or
+  one that first routes re-entrantly for another type — on a session / key map
+  carrying a string under that key: the OUTER parameter's key).
 * `RuleFails` : the ways a rule yields no instance.
 -/
 namespace Cell2v.Route
@@ -45,8 +46,8 @@ inductive RuleNames (R : Rules) (t : String) : Param → String → Prop
   | explicit (s : String) : RuleNames R t (.str s) s
   | const {p : Param} {fp : FParam} {n : String} :
       R.lookup t = some (.const n) → p.viaFunc = some fp → RuleNames R t p n
-  | key {p : Param} {l : KVs} {k n : String} :
-      R.lookup t = some (.key k) → p.kvs? = some l → getKey l k = some (.str n) → RuleNames R t p n
+  | key {p : Param} {l : KVs} {b : Beh} {k n : String} :
+      R.lookup t = some b → b.keyOf = some k → p.kvs? = some l → getKey l k = some (.str n) → RuleNames R t p n
 
 /-- the rule of type `t` yields no instance for parameter `p` (view `ms`) -/
 inductive RuleFails (R : Rules) (ms : List Member) (t : String) : Param → Prop
@@ -55,8 +56,8 @@ inductive RuleFails (R : Rules) (ms : List Member) (t : String) : Param → Prop
   | emptyFunc {p : Param} {fp : FParam} : R.lookup t = some .empty → p.viaFunc = some fp → RuleFails R ms t p
   | funcPanics {p : Param} {fp : FParam} {b : Beh} :
       R.lookup t = some b → p.viaFunc = some fp → applyBeh b fp = none → RuleFails R ms t p
-  | keyAbsent {p : Param} {l : KVs} {k : String} :
-      R.lookup t = some (.key k) → p.kvs? = some l → getKey l k = none → RuleFails R ms t p
+  | keyAbsent {p : Param} {l : KVs} {b : Beh} {k : String} :
+      R.lookup t = some b → b.keyOf = some k → p.kvs? = some l → getKey l k = none → RuleFails R ms t p
   | badParam : RuleFails R ms t .other
   | noWorkingInstance {p : Param} {fp : FParam} :
       R.lookup t = none → p.viaFunc = some fp → R.hasDefault = true →
